@@ -89,6 +89,28 @@ def run(tier):
             sig = "recovery-differs-from-committed:" + str(m.get("at"))
             verdict.report(sig, "crash image recovers to something else than the last committed content "
                                 "(program %s, system call %s, %s)" % (m.get("program"), m.get("hook"), m.get("at")), m)
+        # ---- (FE, big) the same programs with values of 64 KiB .. 200 KB: sizes where an implementation may chunk,
+        # buffer or split its log records; clean crash point at every system call, torn prefixes sampled (ends,
+        # middle, both sides of every 64 KiB boundary); byte strings of this size are out of TLC's reach, the verdict
+        # is RecoverOK evaluated by the driver (recovered bytes == committed bytes)
+        bwork = os.path.join(work, "big")
+        os.makedirs(bwork, exist_ok=True)
+        bsumms, _bf, bdied = vlib.run_chunked(vst, "wal", ["--seed", vlib.seed(), "--ops", ops, "--big", 1],
+                                              600 if thorough else 60, 10, bwork)
+        big = vlib.sum_keys(bsumms, ["programs", "syscalls", "crash_points", "torn_points", "distinct_images",
+                                     "nontrivial_distinct", "mismatch_count"])
+        big["mismatches"] = [m for s_ in bsumms for m in s_["mismatches"]]
+        log("[drv-big] programs=%d syscalls=%d crash_points=%d (torn %d) distinct=%d nontrivial=%d mismatches=%d died=%d" %
+            (big["programs"], big["syscalls"], big["crash_points"], big["torn_points"], big["distinct_images"],
+             big["nontrivial_distinct"], big["mismatch_count"], len(bdied)))
+        for (prog, how) in bdied[:3]:
+            verdict.report("process-died-while-reopening", "the process running big-value program %d died: %s" % (prog, how),
+                           {"program": prog, "seed": vlib.seed(), "how": how, "big": True})
+        for m in big["mismatches"][:5]:
+            verdict.report("recovery-differs-from-committed:big:" + str(m.get("at")),
+                           "crash image of a big-value program recovers to something else than the last committed content "
+                           "(program %s, system call %s, %s): %s" % (m.get("program"), m.get("hook"), m.get("at"), vlib.short(m, 300)),
+                           dict(m, seed=vlib.seed(), args="vstorage wal --big 1"))
         acc, rej, checked, wall = vlib.validate_runs("WalTrace", "WalTrace.cfg", trace, work,
                                                      timeout=1800, xmx="6g", tag="c01tv")
         log("[tv] %d runs accepted, %d rejected, %d events checked, %.0fs" % (acc, len(rej), checked, wall))
@@ -104,8 +126,9 @@ def run(tier):
             "states": states, "transitions": trans,
             "traces_validated_against_impl": acc,
             "samples": [{"trace_prefix": sample}] + drv.get("sample_images", [])[:2] + img.get("samples", [])[:2],
-            "evaluations": drv["crash_points"] + img["distinct_images"],
-            "distinct_nontrivial": drv["nontrivial_distinct"] + img["nontrivial"],
+            "evaluations": drv["crash_points"] + img["distinct_images"] + big["crash_points"],
+            "distinct_nontrivial": drv["nontrivial_distinct"] + img["nontrivial"] + big["nontrivial_distinct"],
+            "big_value_programs": {k: big[k] for k in big if k != "mismatches"},
             "rule": "crash image = (data file, log file) before each mutating system call plus every strict "
                     "byte-prefix of the pending write; distinct by content hash; non-trivial = log non-empty and "
                     "data differs from the committed image (recovery has to undo something)",
@@ -118,7 +141,10 @@ def run(tier):
         }
         vlib.write_evidence(PROP, tier, "fault_enumeration", cov, [
             "page cache writes become visible in program order (no reordering by the OS); crash = process death",
-            "torn writes are byte-prefixes of a single write_all",
+            "torn writes are byte-prefixes of a single write_all (all of them for writes <= 256 bytes; for the big-value "
+            "programs a sample: ends, middle, both sides of every 64 KiB boundary)",
+            "big-value programs (64 KiB .. 200 KB) are decided by the driver's byte comparison recovered == committed, "
+            "not by WalTrace (sequences of that length are out of TLC's reach)",
             "exhaustive model: files <= 4-5 bytes, <= 3-4 StorageData calls, nesting <= 2, <= 1-2 crashes",
         ], time.time() - t0, len(verdict.violations),
             {"known_findings_seen": verdict.known_seen})
